@@ -95,6 +95,21 @@ CLAIMS = {
         "note": TB + " clang with host glibc headers. Not decided: what the kernel writes into siginfo_t.",
         "technique": "static analysis: cross-language table agreement (clang AST + MIR switch decoding), control-dependence",
     },
+    "C07": {
+        "text": "Static typestate/ordering/type rules on the channel: every cell access uses an index obtained by a successful take from one queue word "
+                "and hands exactly that index to the other word on every path (send empty->full, recv full->empty, new() fills empty); take CAS >= "
+                "Acquire, give CAS >= Release, queue words written by CAS only, exfiltrator pointer Release/Acquire; unsafe Send/Sync impls carry T: Send; "
+                "no bitwise move/forget of the payload, assignment-with-drop, rejected value dropped by send.",
+        "note": TB + " Not decided: the happens-before theorem itself; the rules check the declared orderings and ownership shape the argument needs.",
+        "technique": "static analysis: index provenance/typestate on MIR, atomic-ordering inventory, impl-predicate facts, zero-count escape rules",
+    },
+    "C08": {
+        "text": "Static effect/loop/constant rules: no lock/wait/alloc/free/syscall leaf reachable from new/send/recv, loops are CAS-retry or finite "
+                "iterator loops, a full channel goes straight to return, new() hands out exactly 1..=SLOTS, SLOTS*BITS<=16, MASK=(1<<BITS)-1, "
+                "SLOTS<1<<BITS; explicit panic sites are the three audited ones resting on index conservation.",
+        "note": TB + " Not decided: that the lane arithmetic implements a contiguous queue (value-level), hence panic-freedom proper.",
+        "technique": "static analysis: call-graph effect reachability, loop-shape rules, constant relations, panic-site inventory",
+    },
 }
 
 PENDING = "check under construction in this round (rules designed in DESIGN.md §4); not claimed until the rule set runs clean"
